@@ -56,6 +56,9 @@ def firenow_cases(D):
     # reconnect window (non-first sequence): connect first without delay, lose the transport, then a command
     for fn in (0, 1):
         out.append(("window-fn%d" % fn, "conn %%s mode=seq lazy=1 window=%d %s script=cmd/1/ok/0/nowait;settle;disconnect;settle;cmd/2/ok/%d/nowait;longsettle/%d;awaitall;settle" % (D, base, fn, D + 90)))
+    # a forced reconnect on a LIVE connection is in its backoff; a fire-now command (served at once by the old transport) must
+    # still fast-forward it
+    out.append(("forced-backoff-firenow-while-connected", "conn %%s mode=conc lazy=1 window=%d %s script=cmd/1/ok/0/nowait;settle;force/2/nowait;settle;cmd/3/ok/1/nowait;settle;awaitall;settle" % (D, base)))
     out.append(("window-zero", "conn %s mode=seq lazy=1 window=0 dials=ok conns=ok script=cmd/1/ok/0/nowait;settle;disconnect;settle;cmd/2/ok/0/nowait;longsettle/90;awaitall;settle"))
     out.append(("forced-initial-backoff", "conn %%s mode=seq lazy=1 forcebackoff=1 window=%d %s script=cmd/1/ok/1/nowait;settle;awaitall;settle" % (D, base)))
     # the handler is slow to announce: the fire-now command arrives while the sequence is in OnDisconnected
